@@ -256,8 +256,7 @@ theorem query_dispatch (D : List Quad) :
     simp [fromNamed] at h; subst h
     simp [Sparql.query, execNew, hn]
 
-/-- **refusal_both.**  a refused operator anywhere in the pattern (outside EXISTS patterns, see
-`dev_exists_swallow`) makes *both* sides refuse: the evaluator returns an error — never rows or a
+/-- **refusal_both.**  a refused operator anywhere in the pattern (outside EXISTS patterns; inside them: `exists_refused`) makes *both* sides refuse: the evaluator returns an error — never rows or a
 boolean — for every dataset, and the specification classifies the query as outside the fragment. -/
 theorem refusal_both (D : List Quad) (p : GP) (h : SparqlDev.inFragmentSw p = false) :
     (∃ e, Sparql.query D (.select none p) = .err e) ∧ (∃ e, Sparql.query D (.ask none p) = .err e) ∧
@@ -271,11 +270,21 @@ theorem refusal_both (D : List Quad) (p : GP) (h : SparqlDev.inFragmentSw p = fa
     by simp [evalQuery, hf], by simp [evalQuery, hf]⟩
 
 /-- the switches regenerated from the source on every run, as the theorems and witnesses of this
-file need them: `||`/`&&` and `GRAPH ?g` over no named graph are repaired (e4da433, d984918); IN, IF
-and the refusal inside EXISTS are as in findings/C13.json.  A change of any of them fails here. -/
+file need them: `||`/`&&`, `GRAPH ?g` over no named graph, IF, unary minus and the refusal inside
+EXISTS are repaired (e4da433, d984918, 417c435, 8d7de80, f106847); IN is as in findings/C13.json.
+A change of any of them fails here. -/
 theorem gen_flags :
-    orAndLenient = true ∧ graphEmptyFixed = true ∧ inLenient = false ∧ ifEbvStrict = false ∧
-    existsChecked = false := by decide
+    orAndLenient = true ∧ graphEmptyFixed = true ∧ ifEbvStrict = true ∧ existsChecked = true ∧
+    negChecked = true ∧ inLenient = false := by decide
+
+/-- **exists_refused.**  an operator the engine refuses inside the pattern of FILTER [NOT] EXISTS makes
+the whole pattern fail (since f106847: `check_exists` probes it), for every dataset, graph matcher
+and binding — with `refusal_both`: a refused operator *anywhere* is never answered. -/
+theorem exists_refused (D : List Quad) (neg : Bool) (pat inner : GP) (gm : List (Option Term)) (b : Option Binding)
+    (h : SparqlDev.inFragmentSw pat = false) : ∃ e, select D (.filterExists neg pat inner) gm b = .error e := by
+  obtain ⟨e, he⟩ := refused_never_answers D pat h [] none
+  have hf : existsChecked = true := rfl
+  exact ⟨e, by simp [select, hf, he, bind, Except.bind]⟩
 
 /-! ## Totality -/
 
@@ -399,19 +408,37 @@ theorem dev_in_strict :
   revert this
   decide
 
-/-- finding C13-if-ebv-error: `IF(<x:a>, 1, 2)` -/
-theorem dev_if_ebv : ¬ ExprOK (.ite (.const (iriT "x:a")) (.const (intTerm 1)) (.const (intTerm 2))) := by
-  intro h
-  have := (h {} [] (fun _ => rfl)).2
-  revert this
-  decide
+/-- fixed finding C13-if-ebv-error (commit 417c435): `IF(<x:a>, 1, 2)` is an error on both sides (it was
+`2` in the engine), i.e. the expression satisfies `ExprOK` -/
+theorem fixed_if_ebv : ExprOK (.ite (.const (iriT "x:a")) (.const (intTerm 1)) (.const (intTerm 2))) := by
+  intro b μ _
+  constructor <;> rfl
 
-/-- finding C13-exists-swallows-refusal: `ASK { ?s ?p ?o FILTER NOT EXISTS { ?s ?p ?o OPTIONAL { ?o ?p ?s } } }`
-is answered (true) although OPTIONAL is not implemented; the specification refuses -/
-theorem dev_exists_swallow :
+/-- fixed finding C13-neg-overflow-panic (commit 8d7de80): `-(-9223372036854775808)` is the integer
+9223372036854775808 on both sides (the engine overflowed), and the expression satisfies `ExprOK` -/
+theorem fixed_neg_min :
+    ExprOK (.neg (.const (intTerm (-9223372036854775808)))) ∧
+    SparqlSpec.evalExpr [] (.neg (.const (intTerm (-9223372036854775808)))) = some (intTerm 9223372036854775808) := by
+  refine ⟨?_, by decide⟩
+  intro b μ _
+  have h1 : filterKeeps (.neg (.const (intTerm (-9223372036854775808)))) b =
+      filterKeeps (.neg (.const (intTerm (-9223372036854775808)))) {} := rfl
+  have h2 : holds (.neg (.const (intTerm (-9223372036854775808)))) μ =
+      holds (.neg (.const (intTerm (-9223372036854775808)))) [] := rfl
+  have h3 : Sparql.evalExpr b (.neg (.const (intTerm (-9223372036854775808)))) =
+      Sparql.evalExpr {} (.neg (.const (intTerm (-9223372036854775808)))) := rfl
+  have h4 : SparqlSpec.evalExpr μ (.neg (.const (intTerm (-9223372036854775808)))) =
+      SparqlSpec.evalExpr [] (.neg (.const (intTerm (-9223372036854775808)))) := rfl
+  rw [h1, h2, h3, h4]
+  constructor <;> decide
+
+/-- fixed finding C13-exists-swallows-refusal (commit f106847): `ASK { ?s ?p ?o FILTER NOT EXISTS { ?s ?p ?o
+OPTIONAL { ?o ?p ?s } } }` is refused by both sides (the engine answered `true`) -/
+theorem fixed_exists_swallow :
     let D := [q (iriT "x:a") (iriT "x:p") (iriT "x:b") none]
     let p := GP.filterExists true (.leftJoin (.bgp [spo]) (.bgp [⟨vT "o", vT "p", vT "s"⟩])) (.bgp [spo])
-    Sparql.query D (.ask none p) = .bool true ∧ evalQuery D (.ask none p) = .err .unsupported := ⟨rfl, rfl⟩
+    Sparql.query D (.ask none p) = .err (.notImplemented "LeftJoin") ∧
+    evalQuery D (.ask none p) = .err .unsupported := ⟨rfl, rfl⟩
 
 /-- finding C13-from-default-graphs: `FROM <x:g1> FROM <x:g2>` (dataset clause without `named` list)
 over two graphs sharing a triple: two rows, the RDF merge has one -/
